@@ -76,10 +76,16 @@ func checkEmitters(r *Run, fm *flowModel) []Finding {
 	var out []Finding
 	add := func(f string, a ...interface{}) { out = append(out, Finding{"C18", fmt.Sprintf(f, a...)}) }
 	per := make([][]Event, s.Emitters)
+	decoy := 0
 	for _, ev := range e.Events {
 		if ev.Kind == "emit" && ev.Em < len(per) {
 			per[ev.Em] = append(per[ev.Em], ev)
+		} else if ev.Kind == "emit" {
+			decoy++
 		}
+	}
+	if decoy > 0 {
+		add("an emitter that is not part of the directive's emitter stack (it only belongs to a sibling stack derived from the same nested EmitterStack) received %d events", decoy)
 	}
 	cs := calls(e)
 	dirPrefix := "Flow"
